@@ -1,17 +1,23 @@
 #!/usr/bin/env python3
 """run_seeded.py [ids...]: apply each /verif/seeded/<id>/patch.diff to /repo, run the quick check of the
 property it breaks (and optionally others with --also C05,C06), undo the patch, and record caught/missed in
-/verif/seeded/RESULTS.json.  /repo is always restored (git checkout -- .)."""
+/verif/seeded/RESULTS.json (with --seed=N: at that seed, into RESULTS_seed<N>.json).  /repo is always restored (git checkout -- .)."""
 import json, os, subprocess, sys, glob
 V = os.path.dirname(os.path.dirname(os.path.abspath(__file__)))
-REPO = "/repo"
+REPO = os.environ.get("IODINE_REPO", "/repo")
 args = [a for a in sys.argv[1:] if not a.startswith("--")]
 also = []
+seed = None
+resname = "RESULTS.json"
 for a in sys.argv[1:]:
     if a.startswith("--also="):
         also = a[7:].split(",")
+    if a.startswith("--seed="):
+        # a robustness run at another seed: results go to RESULTS_seed<N>.json, RESULTS.json (seed 1) is left alone
+        seed = a[7:]
+        resname = "RESULTS_seed%s.json" % seed
 ids = args or sorted(os.path.basename(d) for d in glob.glob(V + "/seeded/C*-*"))
-resf = V + "/seeded/RESULTS.json"
+resf = V + "/seeded/" + resname
 res = json.load(open(resf)) if os.path.exists(resf) else {}
 assert subprocess.run(["git", "-C", REPO, "status", "--porcelain", "--untracked-files=no"], capture_output=True, text=True).stdout.strip() == "", "/repo not clean"
 for i in ids:
@@ -23,13 +29,14 @@ for i in ids:
     try:
         out = {}
         for p in [prop] + also:
-            c = subprocess.run([V + "/check", p, "--tier", "quick"], capture_output=True, text=True, cwd=V)
+            c = subprocess.run([V + "/check", p, "--tier", "quick"] + (["--seed", seed] if seed else []), capture_output=True, text=True, cwd=V)
             viol = [l for l in c.stdout.split("\n") if l.startswith("VIOLATION")]
             first = [l for l in c.stdout.split("\n") if l.startswith("# ")][:1]
             out[p] = {"exit": c.returncode, "violations": len(viol), "no_failing_input": any("no-failing-input-found" in l for l in viol),
                       "first": first[0][:300] if first else ""}
             print(i, p, "CAUGHT" if c.returncode == 1 and viol else "MISSED", out[p]["first"][:160])
         res[i] = out
+        json.dump(res, open(resf, "w"), indent=1, sort_keys=True)
     finally:
         subprocess.run(["git", "-C", REPO, "checkout", "--", "."], check=True)
 json.dump(res, open(resf, "w"), indent=1, sort_keys=True)
